@@ -207,6 +207,8 @@ pub enum TreeMut {
     Randomise(u64),
     /// set leaf to all-zero
     Zero,
+    /// set every byte of the leaf to 0xff
+    Ones,
     /// Option: Some <-> None (a None becomes Some(default))
     ToggleOpt,
     /// Seq/Bytes: remove the last element
@@ -335,6 +337,16 @@ pub fn apply(root: &mut Val, elem: &Ty, path: &[usize], m: &TreeMut) -> bool {
         (TreeMut::Zero, Val::B16(x)) => *x = [0; 16],
         (TreeMut::Zero, Val::Arr32(x)) => *x = [0; 32],
         (TreeMut::Zero, Val::Bytes(x)) if !x.is_empty() => x.iter_mut().for_each(|b| *b = 0),
+        (TreeMut::Ones, Val::U8(b)) => {
+            if *b == 0xff {
+                return false;
+            }
+            *b = 0xff
+        }
+        (TreeMut::Ones, Val::U128(x)) => *x = u128::MAX,
+        (TreeMut::Ones, Val::B16(x)) => *x = [0xff; 16],
+        (TreeMut::Ones, Val::Arr32(x)) => *x = [0xff; 32],
+        (TreeMut::Ones, Val::Bytes(x)) if !x.is_empty() => x.iter_mut().for_each(|b| *b = 0xff),
         (TreeMut::ToggleOpt, n @ Val::Opt(_)) => {
             let inner = match &ty {
                 Ty::Opt(t) => (**t).clone(),
